@@ -455,3 +455,27 @@ func PanicSite(stack string) string {
 	}
 	return "unknown"
 }
+
+// GuardTimeout is Guard with a bound on the time f may take: it runs f in its own goroutine and gives up waiting
+// after d (the goroutine is abandoned). Used where the code under test could block on something no deadline
+// covers (a mutex that is never released, a pipeline slot that is never freed) — that must be reported, not hang
+// the check.
+func GuardTimeout(d time.Duration, f func()) (panicked bool, what string, timedOut bool) {
+	done := make(chan struct{})
+	go func() {
+		defer close(done)
+		panicked, what = Guard(f)
+	}()
+	t := time.NewTimer(d)
+	defer t.Stop()
+	select {
+	case <-done:
+		return panicked, what, false
+	case <-t.C:
+		return false, "", true
+	}
+}
+
+// CallTimeout is the bound used by the network checks for one client call against the synchronous fake server
+// (which answers in microseconds).
+const CallTimeout = 20 * time.Second
